@@ -926,7 +926,7 @@ structure WfFacts (env : Env) (d : ElfDesc) : Prop where
   mlt : d.segments.length < 2 ^ 32
   shpos : d.sections.length = 0 ∨ (0 < d.shoff ∧ d.shstrndx < d.sections.length)
   phpos : d.segments.length = 0 ∨ 0 < d.phoff
-  nameoff : ∀ st, d.sections[d.shstrndx]? = some st →
+  nameoff : d.shstrndx ≠ 0 → ∀ st, d.sections[d.shstrndx]? = some st →
     ∀ s ∈ d.sections, getNatD st.hdr "sh_offset" + s.nameOff < 2 ^ 63
   secs : ∀ i, i < d.sections.length → d.secOkZ env 4 i = true
   noshstr : d.sections.length = 0 → d.shstrndx = 0
@@ -940,10 +940,12 @@ theorem wfZ_facts {env : Env} {d : ElfDesc} (h : d.wfZ env = true) : WfFacts env
   · cases hr : d.regions with
     | none => simp [hr] at h4
     | some rs => exact ⟨rs, rfl, by simpa [hr] using h4⟩
-  · intro st hst s hs
-    rw [hst] at h15
-    simp only [List.all_eq_true, decide_eq_true_eq] at h15
-    exact h15 s hs
+  · intro hnz st hst s hs
+    rcases h15 with h15 | h15
+    · exact absurd h15 hnz
+    · rw [hst] at h15
+      simp only [List.all_eq_true, decide_eq_true_eq] at h15
+      exact h15 s hs
   · intro hn
     rcases h17 with h | h
     · exact absurd hn h
@@ -1294,28 +1296,45 @@ theorem parse_ehdr_ok {env : Env} {d : ElfDesc} {bytes : Bytes} {hdr : Val} (hL 
   rw [this, structParseAt_layout env _ (dS_ehdr_fixed d) _ eh he bytes 0 hr (by omega), hd]
   exact ⟨_, rfl⟩
 
+/-- what `ELFFile.__init__` leaves in `_section_header_stringtable` for a description with sections:
+    nothing when the file has no name table (`e_shstrndx` = SHN_UNDEF), else the decoded header of
+    section `e_shstrndx` -/
+def ShstrOk (env : Env) (d : ElfDesc) (shstr : Option Val) : Prop :=
+  (d.shstrndx = 0 ∧ shstr = none) ∨
+  (d.shstrndx ≠ 0 ∧ ∃ st, shstr = some st ∧ d.decHdr env d.shstrndx = some st)
+
+/-- STATEMENT CHANGED with the repair of `no-name-table`: the name table left behind is `none` for
+    `e_shstrndx` = SHN_UNDEF (`ShstrOk`), no longer always `some` header. -/
 theorem openElf_ok_pos {env : Env} {d : ElfDesc} {bytes : Bytes} {hdr : Val} (hw : WfFacts env d)
     (hL : LayoutFacts d bytes) (hd : d.S.Elf_Ehdr.decodeRaw env [] d.ehdrRaw = .ok hdr)
     (hn : 0 < d.sections.length) :
-    ∃ st, d.decHdr env d.shstrndx = some st ∧
+    ∃ shstr, ShstrOk env d shstr ∧
       openElf env specSF specMC bytes
-        = .ok { data := bytes, cls := d.cls, le := d.le, S := d.S, header := hdr, shstr := some st } := by
+        = .ok { data := bytes, cls := d.cls, le := d.le, S := d.S, header := hdr, shstr := shstr } := by
   obtain ⟨eh, he, hr⟩ := hL.ehdr
   have hf := hdr_facts he hd
-  have hlt : d.shstrndx < d.sections.length := by
-    rcases hw.shpos with h | h
-    · omega
-    · exact h.2
-  obtain ⟨_, st, _, _, hdec, hsf, hinit, _⟩ := sec_bundle hw.cls hL (hw.secs _ hlt)
   obtain ⟨p, hp⟩ := parse_ehdr_ok hL hd
-  refine ⟨st, hdec, ?_⟩
-  unfold openElf
-  rw [identify_ok hw.cls he hr]
-  simp only [bind, Except.bind, specSF, hp, cfgOfHeader_ok hd hw.cfg hf]
-  have : elfStructs d.cfg = d.S := rfl
-  rw [this, getShstrndx_ok hw hL hf]
-  simp only [getSectionHeader_ok hw hL hf hdec, hinit]
-  rfl
+  have hS : elfStructs d.cfg = d.S := rfl
+  by_cases hz : d.shstrndx = 0
+  · refine ⟨none, Or.inl ⟨hz, rfl⟩, ?_⟩
+    unfold openElf
+    rw [identify_ok hw.cls he hr]
+    simp only [bind, Except.bind, specSF, hp, cfgOfHeader_ok hd hw.cfg hf]
+    rw [hS, getShstrndx_ok hw hL hf, hz]
+    rfl
+  · have hlt : d.shstrndx < d.sections.length := by
+      rcases hw.shpos with h | h
+      · omega
+      · exact h.2
+    obtain ⟨_, st, _, _, hdec, hsf, hinit, _⟩ := sec_bundle hw.cls hL (hw.secs _ hlt)
+    refine ⟨some st, Or.inr ⟨hz, st, rfl, hdec⟩, ?_⟩
+    have hne : (d.shstrndx == 0) = false := by simpa using hz
+    unfold openElf
+    rw [identify_ok hw.cls he hr]
+    simp only [bind, Except.bind, specSF, hp, cfgOfHeader_ok hd hw.cfg hf]
+    rw [hS, getShstrndx_ok hw hL hf]
+    simp only [hne, Bool.false_eq_true, if_false, getSectionHeader_ok hw hL hf hdec, hinit]
+    rfl
 
 /-! ### section names -/
 
@@ -1343,8 +1362,20 @@ structure NameFacts (d : ElfDesc) : Prop where
   ok : ∃ (hlt : d.shstrndx < d.sections.length) (body : Bytes), (d.sections[d.shstrndx]).body = some body ∧
       ∀ s ∈ d.sections, firstNul (body.drop s.nameOff) = some s.name
 
-theorem name_facts {d : ElfDesc} (h : d.namesOk = true) (hn : 0 < d.sections.length) : NameFacts d := by
+/-- a description without a name table: every section is nameless -/
+theorem names_empty {d : ElfDesc} (h : d.namesOk = true) (hz : d.shstrndx = 0) :
+    ∀ s ∈ d.sections, s.name = [] := by
   unfold ElfDesc.namesOk at h
+  simp only [hz, beq_self_eq_true, if_true, List.all_eq_true, List.isEmpty_iff] at h
+  exact h
+
+/-- (hypothesis `hnz` added with the repair of `no-name-table`: with `e_shstrndx` = SHN_UNDEF there is
+    no table, see `names_empty`) -/
+theorem name_facts {d : ElfDesc} (h : d.namesOk = true) (hn : 0 < d.sections.length)
+    (hnz : d.shstrndx ≠ 0) : NameFacts d := by
+  unfold ElfDesc.namesOk at h
+  have hne : (d.shstrndx == 0) = false := by simpa using hnz
+  simp only [hne, Bool.false_eq_true, if_false] at h
   cases hs : d.sections[d.shstrndx]? with
   | none =>
     simp only [hs] at h
@@ -1359,17 +1390,25 @@ theorem name_facts {d : ElfDesc} (h : d.namesOk = true) (hn : 0 < d.sections.len
       simp only [hb, List.all_eq_true, beq_iff_eq] at h
       exact ⟨hlt, body, hb, h⟩
 
-theorem getSectionName_ok {env : Env} {d : ElfDesc} {bytes : Bytes} {st : Val} (hw : WfFacts env d)
-    (hL : LayoutFacts d bytes) (hst : d.decHdr env d.shstrndx = some st)
+/-- STATEMENT CHANGED with the repair of `no-name-table` (`getSectionName` consults `get_shstrndx()`
+    when there is no table object): any `shstr` that `ELFFile()` can have left behind (`ShstrOk`). -/
+theorem getSectionName_ok {env : Env} {d : ElfDesc} {bytes : Bytes} {hdr : Val} {shstr : Option Val}
+    (hw : WfFacts env d) (hL : LayoutFacts d bytes) (hf : HdrFacts d hdr) (hst : ShstrOk env d shstr)
     {i : Nat} (hi : i < d.sections.length) {h : Val} (hsf : SecFacts (d.sections[i]) h) :
-    getSectionName bytes (some st) (some h) = .ok (d.sections[i]).name := by
-  obtain ⟨hlt, body, hbody, hall⟩ := (name_facts hw.names (by omega)).ok
+    getSectionName env d.S bytes hdr shstr (some h) = .ok (d.sections[i]).name := by
+  rcases hst with ⟨hz, rfl⟩ | ⟨hnz, st, rfl, hst⟩
+  · -- no name table: the empty name
+    rw [names_empty hw.names hz _ (List.getElem_mem hi)]
+    unfold getSectionName
+    simp only [getShstrndx_ok hw hL hf, hz, bind, Except.bind]
+    rfl
+  obtain ⟨hlt, body, hbody, hall⟩ := (name_facts hw.names (by omega) hnz).ok
   obtain ⟨_, hstd⟩ := decHdr_some hst
   obtain ⟨b, hb, -⟩ := hL.shdr _ hlt
   have hstf := sec_facts hb hstd
   have hread := hL.body _ (List.getElem_mem hlt) body hbody
   have hname := hall _ (List.getElem_mem hi)
-  have hoff := hw.nameoff _ (List.getElem?_eq_getElem hlt) _ (List.getElem_mem hi)
+  have hoff := hw.nameoff hnz _ (List.getElem?_eq_getElem hlt) _ (List.getElem_mem hi)
   unfold getSectionName subscript
   have h1 : (do let x ← h.getField "sh_name"; x.asNat) = h.getNat "sh_name" := rfl
   simp only [bind, Except.bind] at h1 ⊢
@@ -1506,7 +1545,7 @@ def kindR (sh ty : Val) (link : Nat) (name : Bytes) : R String :=
 
 theorem makeSection_succ (sh : Val) :
     makeSection env S data hdr shstr (fuel + 1) (some sh) = (do
-      let name ← getSectionName data shstr (some sh)
+      let name ← getSectionName env S data hdr shstr (some sh)
       let ty ← sh.getField "sh_type"
       let link ← sh.getNat "sh_link"
       let k ← kindR env S data hdr shstr fuel sh ty link name
@@ -1551,26 +1590,30 @@ theorem linkIs_unpack {env : Env} {d : ElfDesc} {fuel link : Nat} {types : List 
     obtain ⟨t, ht, hm⟩ := typeIn_unpack h.1
     exact ⟨lh, t, rfl, ht, hm, h.2⟩
 
-structure Setup (env : Env) (d : ElfDesc) (bytes : Bytes) (hdr st : Val) : Prop where
+/-- STATEMENT CHANGED with the repair of `no-name-table`: the last parameter is what `ELFFile()` left in
+    `_section_header_stringtable` (`Option Val`: `none` for a file without a name table), no longer the
+    header of a table that always exists; `hst` says which (`ShstrOk`).  The lemmas over a `Setup`
+    below speak of `shstr` where they spoke of `some st`. -/
+structure Setup (env : Env) (d : ElfDesc) (bytes : Bytes) (hdr : Val) (st : Option Val) : Prop where
   hw : WfFacts env d
   hL : LayoutFacts d bytes
   hf : HdrFacts d hdr
-  hst : d.decHdr env d.shstrndx = some st
+  hst : ShstrOk env d st
 
 /-- induction hypothesis of the link recursion -/
-def MakeOk (env : Env) (d : ElfDesc) (bytes : Bytes) (hdr st : Val) (fuel : Nat) : Prop :=
+def MakeOk (env : Env) (d : ElfDesc) (bytes : Bytes) (hdr : Val) (st : Option Val) (fuel : Nat) : Prop :=
   ∀ i h, d.secOkZ env fuel i = true → d.decHdr env i = some h →
-    ∃ r, makeSection env d.S bytes hdr (some st) fuel (some h) = .ok r
+    ∃ r, makeSection env d.S bytes hdr st fuel (some h) = .ok r
 
 abbrev linkIsB (env : Env) (d : ElfDesc) (fuel link : Nat) (types : List String) : Bool :=
   match d.decHdr env link with
   | some lh => typeIn lh types && d.secOkZ env fuel link
   | none => false
 
-theorem linkedStrtabR_ok {env : Env} {d : ElfDesc} {bytes : Bytes} {hdr st : Val}
+theorem linkedStrtabR_ok {env : Env} {d : ElfDesc} {bytes : Bytes} {hdr : Val} {st : Option Val}
     (X : Setup env d bytes hdr st) {fuel : Nat} (IH : MakeOk env d bytes hdr st fuel) {link : Nat}
     (hl : linkIsB env d fuel link ["SHT_STRTAB"] = true) :
-    linkedStrtabR env d.S bytes hdr (some st) fuel link = .ok () := by
+    linkedStrtabR env d.S bytes hdr st fuel link = .ok () := by
   obtain ⟨lh, t, hdec, hty, hm, hok⟩ := linkIs_unpack hl
   obtain ⟨r, hr⟩ := IH link lh hok hdec
   simp only [List.mem_cons, List.not_mem_nil, or_false] at hm
@@ -1578,10 +1621,10 @@ theorem linkedStrtabR_ok {env : Env} {d : ElfDesc} {bytes : Bytes} {hdr st : Val
   unfold linkedStrtabR
   simp [getSectionHeader_ok X.hw X.hL X.hf hdec, subscript, hty, isStr, hr, bind, Except.bind, pure, Except.pure]
 
-theorem linkedSymtabR_ok {env : Env} {d : ElfDesc} {bytes : Bytes} {hdr st : Val}
+theorem linkedSymtabR_ok {env : Env} {d : ElfDesc} {bytes : Bytes} {hdr : Val} {st : Option Val}
     (X : Setup env d bytes hdr st) {fuel : Nat} (IH : MakeOk env d bytes hdr st fuel) {link : Nat}
     (hl : linkIsB env d fuel link ["SHT_SYMTAB", "SHT_DYNSYM"] = true) :
-    linkedSymtabR env d.S bytes hdr (some st) fuel link = .ok () := by
+    linkedSymtabR env d.S bytes hdr st fuel link = .ok () := by
   obtain ⟨lh, t, hdec, hty, hm, hok⟩ := linkIs_unpack hl
   obtain ⟨r, hr⟩ := IH link lh hok hdec
   simp only [List.mem_cons, List.not_mem_nil, or_false] at hm
@@ -1993,12 +2036,12 @@ theorem body_read {d : ElfDesc} {bytes : Bytes} (hL : LayoutFacts d bytes) {i : 
     have := hL.body _ (List.getElem_mem hi) b hb
     simpa [bodyOf, hb] using this
 
-theorem kindR_ok {env : Env} {d : ElfDesc} {bytes : Bytes} {hdr st : Val}
+theorem kindR_ok {env : Env} {d : ElfDesc} {bytes : Bytes} {hdr : Val} {st : Option Val}
     (X : Setup env d bytes hdr st) {fuel : Nat} (IH : MakeOk env d bytes hdr st fuel)
     {i : Nat} (hi : i < d.sections.length) {h : Val} (hsf : SecFacts (d.sections[i]) h)
     (hinit : sectionInit env d.S bytes h = .ok ()) (hc : secCond env d fuel (d.sections[i]) h = true)
     {ty : Val} (hty : h.getField "sh_type" = .ok ty) :
-    kindR env d.S bytes hdr (some st) fuel h ty (fieldNat h "sh_link") (d.sections[i]).name
+    kindR env d.S bytes hdr st fuel h ty (fieldNat h "sh_link") (d.sections[i]).name
       = .ok (kindOf ty (d.sections[i]).name) := by
   have hes := hsf.nat "sh_entsize" (by simp [shdrNatKeys])
   have hsz := hsf.nat "sh_size" (by simp [shdrNatKeys])
@@ -2064,11 +2107,11 @@ theorem kindR_ok {env : Env} {d : ElfDesc} {bytes : Bytes} {hdr st : Val}
         exact kindR_relr hinit hes (relr_sizeof d.cfg)
     · exact kindR_other hk hinit
 
-theorem makeSection_ok {env : Env} {d : ElfDesc} {bytes : Bytes} {hdr st : Val}
+theorem makeSection_ok {env : Env} {d : ElfDesc} {bytes : Bytes} {hdr : Val} {st : Option Val}
     (X : Setup env d bytes hdr st) :
     ∀ fuel i h, d.secOkZ env fuel i = true → d.decHdr env i = some h →
       ∃ (hi : i < d.sections.length) (ty : Val), h.getField "sh_type" = .ok ty ∧
-        makeSection env d.S bytes hdr (some st) fuel (some h)
+        makeSection env d.S bytes hdr st fuel (some h)
           = .ok (kindOf ty (d.sections[i]).name, (d.sections[i]).name) := by
   intro fuel
   induction fuel with
@@ -2085,17 +2128,17 @@ theorem makeSection_ok {env : Env} {d : ElfDesc} {bytes : Bytes} {hdr st : Val}
     cases hfu
     obtain ⟨ty, hty⟩ := hsf.ty
     refine ⟨hi, ty, hty, ?_⟩
-    rw [makeSection_succ, getSectionName_ok X.hw X.hL X.hst hi hsf]
+    rw [makeSection_succ, getSectionName_ok X.hw X.hL X.hf X.hst hi hsf]
     simp only [bind, Except.bind, hty, hsf.nat "sh_link" (by simp [shdrNatKeys])]
     rw [kindR_ok X IH hi hsf hfl hc hty]
     rfl
 
 /-! ### `get_section`, counts -/
 
-theorem getSection_ok {env : Env} {d : ElfDesc} {bytes : Bytes} {hdr st : Val}
+theorem getSection_ok {env : Env} {d : ElfDesc} {bytes : Bytes} {hdr : Val} {st : Option Val}
     (X : Setup env d bytes hdr st) {i : Nat} (hi : i < d.sections.length) :
     ∃ h ty, d.decHdr env i = some h ∧ SecFacts (d.sections[i]) h ∧ h.getField "sh_type" = .ok ty ∧
-      getSection env d.S bytes hdr (some st) i
+      getSection env d.S bytes hdr st i
         = .ok (kindOf ty (d.sections[i]).name, (d.sections[i]).name, h) := by
   have hok := X.hw.secs i hi
   obtain ⟨_, h, _, _, hdec, hsf, _, _⟩ := sec_bundle X.hw.cls X.hL hok
@@ -2142,9 +2185,9 @@ theorem numSegments_noesc {env : Env} {d : ElfDesc} {bytes : Bytes} {hdr : Val} 
     omega
   simp [hx, this, bind, Except.bind, pure, Except.pure]
 
-theorem numSegments_esc {env : Env} {d : ElfDesc} {bytes : Bytes} {hdr st : Val}
+theorem numSegments_esc {env : Env} {d : ElfDesc} {bytes : Bytes} {hdr : Val} {st : Option Val}
     (X : Setup env d bytes hdr st) (hx : (d.xPhnum || decide (d.segments.length ≥ 0xffff)) = true) :
-    numSegments env d.S bytes hdr (some st) = .ok d.segments.length := by
+    numSegments env d.S bytes hdr st = .ok d.segments.length := by
   unfold numSegments
   rw [X.hf.phnum]
   obtain ⟨s0, hs0, hinfo⟩ := (esc_facts X.hw.esc).phnum hx
@@ -2168,6 +2211,11 @@ theorem openElf_fields {env : Env} {d : ElfDesc} {bytes : Bytes} {hdr : Val} {f 
   have : elfStructs d.cfg = d.S := rfl
   rw [this, getShstrndx_ok hw hL hf] at hopen
   simp only at hopen
+  by_cases hz : (d.shstrndx == 0) = true
+  · simp only [hz, if_true, pure, Except.pure, Except.ok.injEq] at hopen
+    subst hopen
+    exact ⟨rfl, rfl, rfl, rfl, rfl⟩
+  simp only [hz, Bool.false_eq_true, if_false] at hopen
   cases hg : getSectionHeader env d.S bytes hdr d.shstrndx with
   | error e => simp [hg] at hopen
   | ok o =>
@@ -2190,7 +2238,7 @@ theorem open_setup {env : Env} {d : ElfDesc} {bytes : Bytes} {hdr : Val} {f : El
     (hw : WfFacts env d) (hL : LayoutFacts d bytes)
     (hd : d.S.Elf_Ehdr.decodeRaw env [] d.ehdrRaw = .ok hdr)
     (hopen : openElf env specSF specMC bytes = .ok f) (hn : 0 < d.sections.length) :
-    ∃ st, Setup env d bytes hdr st ∧ f.shstr = some st := by
+    ∃ st, Setup env d bytes hdr st ∧ f.shstr = st := by
   obtain ⟨eh, he, hr⟩ := hL.ehdr
   obtain ⟨st, hst, ho⟩ := openElf_ok_pos hw hL hd hn
   rw [ho] at hopen
@@ -2199,10 +2247,10 @@ theorem open_setup {env : Env} {d : ElfDesc} {bytes : Bytes} {hdr : Val} {f : El
 
 /-! ### the property theorems, over `specSF` / `specMC` -/
 
-theorem getSection_obs {env : Env} {d : ElfDesc} {bytes : Bytes} {hdr st : Val} {obs : ElfObs}
+theorem getSection_obs {env : Env} {d : ElfDesc} {bytes : Bytes} {hdr : Val} {st : Option Val} {obs : ElfObs}
     (X : Setup env d bytes hdr st) (ho : d.observe env = .ok obs) {i : Nat}
     (hi : i < d.sections.length) (hi' : i < obs.sections.length) :
-    getSection env d.S bytes hdr (some st) i = .ok obs.sections[i] := by
+    getSection env d.S bytes hdr st i = .ok obs.sections[i] := by
   obtain ⟨h, ty, hdec, -, hty, hget⟩ := getSection_ok X hi
   obtain ⟨_, hdd⟩ := decHdr_some hdec
   obtain ⟨-, h2, -⟩ := observe_inv ho
@@ -2349,10 +2397,10 @@ theorem kindOf_dynamic {ty : Val} {name : Bytes} (h : kindOf ty name = "DynamicS
   split at h
   all_goals first | rfl | (simp at h; done) | (split at h <;> simp at h)
 
-theorem find_ok {env : Env} {d : ElfDesc} {bytes : Bytes} {hdr st : Val}
+theorem find_ok {env : Env} {d : ElfDesc} {bytes : Bytes} {hdr : Val} {st : Option Val}
     (X : Setup env d bytes hdr st) (poff : Nat) :
     ∀ l : List Nat, (∀ i ∈ l, i < d.sections.length) →
-      makeSegment.find env d.S bytes hdr (some st) poff l = .ok () := by
+      makeSegment.find env d.S bytes hdr st poff l = .ok () := by
   intro l
   induction l with
   | nil => intro _; rfl
@@ -2447,7 +2495,11 @@ theorem segments_gen {env : Env} {d : ElfDesc} {bytes : Bytes} {obs : ElfObs} {f
   rw [makeSegment_ok hw hL hF (seg_facts hb hdec) hty hfind, hr]
   rfl
 
-/-! ### a file without section headers: `ELFFile()` reads "section 0" from the file header's bytes -/
+/-! ### a file without section headers
+
+  Before the repair of `no-name-table`, `ELFFile()` read "section 0" of such a file from the file
+  header's bytes (`ehdr_as_shdr` and the lemmas before it say that this parse succeeds; they are kept,
+  nothing uses them any more): now `e_shstrndx` = SHN_UNDEF means "no name table" and nothing is read. -/
 
 theorem and_0x800_of_testBit (x : Nat) (h : x.testBit 11 = false) : x &&& 0x800 = 0 := by
   apply Nat.eq_of_testBit_eq
@@ -2643,19 +2695,11 @@ theorem openElf_ok_zero {env : Env} {d : ElfDesc} {bytes : Bytes} {hdr : Val} (h
   obtain ⟨eh, he, hr⟩ := hL.ehdr
   have hf := hdr_facts he hd
   obtain ⟨p, hp⟩ := parse_ehdr_ok hL hd
-  obtain ⟨v, q, hv, hinit⟩ := ehdr_as_shdr (env := env) hw.cls he hr
-  have hget : getSectionHeader env d.S bytes hdr d.shstrndx = .ok (some v) := by
-    unfold getSectionHeader
-    rw [sectionOffset_ok hw hf, hw.noshstr hn]
-    simp only [hn, if_true, Nat.zero_mul, Nat.add_zero, bind, Except.bind]
-    simp only [show ¬ (0 > bytes.length) by omega, if_false, hv]
-    rfl
   unfold openElf
   rw [identify_ok hw.cls he hr]
   simp only [bind, Except.bind, specSF, hp, cfgOfHeader_ok hd hw.cfg hf]
   have : elfStructs d.cfg = d.S := rfl
-  rw [this, getShstrndx_ok hw hL hf]
-  simp only [hget, hinit]
+  rw [this, getShstrndx_ok hw hL hf, hw.noshstr hn]
   exact ⟨_, rfl⟩
 
 theorem open_gen {env : Env} {d : ElfDesc} {bytes : Bytes} {obs : ElfObs}
